@@ -554,8 +554,129 @@ package geom
 //@   requires stride >= 2 && 0 <= offset && offset <= end && end <= len(flatCoords) && whole(end - offset, stride)
 //@   ensures forall n int :: n >= 1 && end - offset == mul(n, stride) ==> res == trap(cells(flatCoords), off(flatCoords)+offset, stride, n-1)
 //@   ensures end == offset ==> res == 0.0
+//@   ensures res == trap(cells(flatCoords), off(flatCoords)+offset, stride, cnt(end - offset, stride) - 1)
 //@   loop 1:
 //@     ghost m int = 0 step m + 1
 //@     invariant m >= 0 && i == offset + mul(m+1, stride)
 //@     invariant m == 0 || offset + mul(m, stride) < end
 //@     invariant doubleArea == trap(cells(flatCoords), off(flatCoords)+offset, stride, m)
+
+//@ func doubleArea2
+//@   floats real
+//@   requires stride >= 2 && 0 <= offset
+//@   requires forall i int :: 0 <= i && i < len(ends) ==> 0 <= ends[i] && (i == 0 ? offset : ends[i-1]) <= ends[i] && ends[i] <= len(flatCoords) && whole(ends[i] - (i == 0 ? offset : ends[i-1]), stride)
+//@   ensures res == trap2(cells(flatCoords), off(flatCoords), cells(ends), off(ends), offset, stride, len(ends))
+//@   loop 1:
+//@     invariant offset == (idx == 0 ? offset0 : ends[idx-1])
+//@     invariant doubleArea == trap2(cells(flatCoords), off(flatCoords), cells(ends), off(ends), offset0, stride, idx)
+
+//@ func LinearRing.Area
+//@   floats real
+//@   lemmas trapIsShoeAuto
+//@   requires wf1(g) && g.stride >= 2
+//@   ensures res * 2.0 == trap(cells(g.flatCoords), off(g.flatCoords), g.stride, cnt(len(g.flatCoords), g.stride) - 1)
+//@   ensures forall n int :: n >= 1 && len(g.flatCoords) == mul(n, g.stride) && g.flatCoords[(n-1)*g.stride] == g.flatCoords[0] && g.flatCoords[(n-1)*g.stride+1] == g.flatCoords[1] ==> res * 2.0 == shoe(cells(g.flatCoords), off(g.flatCoords), g.stride, n-1)
+
+//@ func Polygon.Area
+//@   floats real
+//@   requires wf2(g) && g.stride >= 2
+//@   ensures res * 2.0 == trap2(cells(g.flatCoords), off(g.flatCoords), cells(g.ends), off(g.ends), 0, g.stride, len(g.ends))
+
+//@ func length1
+//@   floats real
+//@   lemmas mulCancel, mulCancel2, mulNonneg
+//@   requires stride >= 2 && 0 <= offset && offset <= end && end <= len(flatCoords) && whole(end - offset, stride)
+//@   ensures res == plen(cells(flatCoords), off(flatCoords)+offset, stride, cnt(end - offset, stride) - 1)
+//@   ensures end == offset ==> res == 0.0
+//@   loop 1:
+//@     ghost m int = 0 step m + 1
+//@     invariant m >= 0 && i == offset + mul(m+1, stride)
+//@     invariant m == 0 || offset + mul(m, stride) < end
+//@     invariant length == plen(cells(flatCoords), off(flatCoords)+offset, stride, m)
+
+//@ func length2
+//@   floats real
+//@   requires stride >= 2 && 0 <= offset
+//@   requires forall i int :: 0 <= i && i < len(ends) ==> 0 <= ends[i] && (i == 0 ? offset : ends[i-1]) <= ends[i] && ends[i] <= len(flatCoords) && whole(ends[i] - (i == 0 ? offset : ends[i-1]), stride)
+//@   ensures res == plen2(cells(flatCoords), off(flatCoords), cells(ends), off(ends), offset, stride, len(ends))
+//@   loop 1:
+//@     invariant offset == (idx == 0 ? offset0 : ends[idx-1])
+//@     invariant length == plen2(cells(flatCoords), off(flatCoords), cells(ends), off(ends), offset0, stride, idx)
+
+//@ func LineString.Length
+//@   floats real
+//@   requires wf1(g) && g.stride >= 2
+//@   ensures res == plen(cells(g.flatCoords), off(g.flatCoords), g.stride, cnt(len(g.flatCoords), g.stride) - 1)
+//@ func LinearRing.Length
+//@   floats real
+//@   requires wf1(g) && g.stride >= 2
+//@   ensures res == plen(cells(g.flatCoords), off(g.flatCoords), g.stride, cnt(len(g.flatCoords), g.stride) - 1)
+//@ func Polygon.Length
+//@   floats real
+//@   requires wf2(g) && g.stride >= 2
+//@   ensures res == plen2(cells(g.flatCoords), off(g.flatCoords), cells(g.ends), off(g.ends), 0, g.stride, len(g.ends))
+//@ func MultiLineString.Length
+//@   floats real
+//@   requires wf2(g) && g.stride >= 2
+//@   ensures res == plen2(cells(g.flatCoords), off(g.flatCoords), cells(g.ends), off(g.ends), 0, g.stride, len(g.ends))
+
+//@ func Point.Area
+//@   floats real
+//@   ensures res == 0.0
+//@ func Point.Length
+//@   floats real
+//@   ensures res == 0.0
+//@ func LineString.Area
+//@   floats real
+//@   ensures res == 0.0
+//@ func MultiPoint.Area
+//@   floats real
+//@   ensures res == 0.0
+//@ func MultiPoint.Length
+//@   floats real
+//@   ensures res == 0.0
+//@ func MultiLineString.Area
+//@   floats real
+//@   ensures res == 0.0
+
+// ---------------------------------------------------------------------------
+// level 3: MultiPolygon
+
+//@ func NewMultiPolygonFlat
+//@   requires strideOf(layout) >= 0 && endssOK(endss, len(flatCoords), strideOf(layout))
+//@   ensures fresh(res) && wf3(res) && res.layout == layout && res.flatCoords == flatCoords && res.endss == endss && res.srid == 0
+
+//@ func NewMultiPolygon
+//@   requires strideOf(layout) >= 0
+//@   ensures fresh(res) && wf3(res) && res.layout == layout && len(res.flatCoords) == 0 && len(res.endss) == 0 && res.srid == 0
+
+//@ func MultiPolygon.NumPolygons
+//@   ensures res == len(g.endss)
+
+//@ func doubleArea3
+//@   floats real
+//@   requires stride >= 2 && offset == 0 && endssOK(endss, len(flatCoords), stride)
+//@   loop 1:
+//@     ghost lastp int = 0 - 1 step (len(endss[idx-1]) > 0 ? idx - 1 : lastp)
+//@     invariant 0 - 1 <= lastp && lastp < idx
+//@     invariant lastp == 0 - 1 ==> offset == 0 && emptyBetween(endss, 0 - 1, idx)
+//@     invariant lastp >= 0 ==> len(endss[lastp]) > 0 && offset == endss[lastp][len(endss[lastp])-1] && emptyBetween(endss, lastp, idx)
+
+//@ func length3
+//@   floats real
+//@   requires stride >= 2 && offset == 0 && endssOK(endss, len(flatCoords), stride)
+//@   loop 1:
+//@     ghost lastp int = 0 - 1 step (len(endss[idx-1]) > 0 ? idx - 1 : lastp)
+//@     invariant 0 - 1 <= lastp && lastp < idx
+//@     invariant lastp == 0 - 1 ==> offset == 0 && emptyBetween(endss, 0 - 1, idx)
+//@     invariant lastp >= 0 ==> len(endss[lastp]) > 0 && offset == endss[lastp][len(endss[lastp])-1] && emptyBetween(endss, lastp, idx)
+
+//@ func MultiPolygon.Area
+//@   floats real
+//@   requires wf3(g) && g.stride >= 2
+//@   ensures true
+
+//@ func MultiPolygon.Length
+//@   floats real
+//@   requires wf3(g) && g.stride >= 2
+//@   ensures true
